@@ -1,6 +1,35 @@
-/- stub: property C10 has no model driver yet -/
-namespace ActixModel.Drv.C10
+import ActixModel.Util
+import ActixModel.Model.Quoter
+/-
+Line-protocol driver for C10.  First word selects the sub-model:
 
-def run (_line : String) : String := "unimplemented"
+  q <protected-hex> <in-hex>…       Quoter::new(b"", protected).requote(in) for each input
+                                    → `none` | `some:<hex>` per input, or `panic-new`
+(hex: lower-case, `-` = empty)
+-/
+namespace ActixModel.Drv.C10
+open ActixModel.Util ActixModel.Quoter
+
+def hexOrDash (bs : List UInt8) : String := if bs.isEmpty then "-" else hexOfBytes bs
+
+def runQuoter (prot : String) (inputs : List String) : String :=
+  match bytesOfHex prot with
+  | some p =>
+    match Quoter.mk? p with
+    | none => "panic-new"
+    | some q =>
+      joinWith " " (inputs.map fun w =>
+        match bytesOfHex w with
+        | some i =>
+          match q.requote i with
+          | none => "none"
+          | some out => "some:" ++ hexOrDash out
+        | none => "bad-case")
+  | none => "bad-case"
+
+def run (line : String) : String :=
+  match words line with
+  | "q" :: prot :: inputs => runQuoter prot inputs
+  | _ => "bad-case"
 
 end ActixModel.Drv.C10
